@@ -1,5 +1,31 @@
+import json
+
 import serviceapi
 
 
 def run(ctx, replay=None):
+    rp = json.load(open(replay)) if replay else None
+    if rp and rp.get("family") == "group_lifecycle":
+        import grouplife
+        grouplife.run_part(ctx, replay_obj=rp)
+        return ctx.finish(level="model_checking", rule="replay: group lifecycle (activate / deactivate / close, two clients)", exhaustive=False,
+                          technique="replay of one recorded lifecycle script on a real in-process service; TLC trace validation against MonGroupLife")
+    if not replay and ctx.tier != "quick":
+        # thorough tier, beyond the listed property: the service's group lifecycle (GroupLife.tla: activate /
+        # deactivate / sends / listings / close by two concurrent clients) bound to the real service by trace
+        # validation - drift only, except a recovered panic or a request that kills the process, which is C19's
+        # statement and is reported as a violation
+        finish = ctx.finish
+
+        def finish_with_group_lifecycle(**kw):
+            ctx.finish = finish
+            import grouplife
+            import vf
+            try:
+                grouplife.run_part(ctx)
+            except vf.Infra as e:
+                ctx.drift.append({"trace": "group_lifecycle", "info": "part skipped: %s" % str(e)[:300]})
+            kw["technique"] = kw.get("technique", "") + "; thorough: GroupLife.tla (group lifecycle under two concurrent clients) model-checked and bound to the real service by TLC trace validation (drift only; panics are violations)"
+            return finish(**kw)
+        ctx.finish = finish_with_group_lifecycle
     return serviceapi.run(ctx, replay)
